@@ -89,6 +89,15 @@ func c19Model(nSubs int) porcupine.Model {
 	}
 }
 
+// c19Prelauncher subscribes in OnPrelaunch, before it is known whether the spawn succeeds.
+type c19Prelauncher struct{ typ int }
+
+func (a *c19Prelauncher) OnReceive(ctx vivid.ActorContext) {}
+func (a *c19Prelauncher) OnPrelaunch(ctx vivid.PrelaunchContext) error {
+	ctx.EventStream().Subscribe(ctx, c19Zero[a.typ])
+	return nil
+}
+
 func c19PubSub(r *R) {
 	w := newWorld(r, WorldOpt{})
 	if r.Failed() {
@@ -164,7 +173,9 @@ func c19PubSub(r *R) {
 	killed := map[int]bool{}
 	for i := 0; i < nOps; i++ {
 		p := planned{sub: r.Choose(nSubs), typ: r.Choose(3), pub: r.Choose(nPubs), outside: r.Chance(40)}
-		switch x := r.Choose(20); {
+		switch x := r.Choose(21); {
+		case x == 20:
+			p.kind = 6 // a spawn under the subscriber's name is refused; the refused actor subscribes in its OnPrelaunch
 		case x < 6:
 			p.kind = 0
 		case x < 8:
@@ -185,7 +196,14 @@ func c19PubSub(r *R) {
 			killed[p.sub] = true
 		}
 		plan = append(plan, p)
-		pdesc = append(pdesc, fmt.Sprintf("%s(s%d,T%d,p%d)", []string{"Sub", "Unsub", "UnsubAll", "Pub", "Kill", "Restart"}[p.kind], p.sub, p.typ, p.pub))
+		pdesc = append(pdesc, fmt.Sprintf("%s(s%d,T%d,p%d)", []string{"Sub", "Unsub", "UnsubAll", "Pub", "Kill", "Restart", "RefusedSpawn"}[p.kind], p.sub, p.typ, p.pub))
+	}
+	for i := range plan {
+		// the refused spawn needs the name to be taken for the whole run
+		if plan[i].kind == 6 && killed[plan[i].sub] {
+			plan[i].kind = 3
+			pdesc[i] = fmt.Sprintf("Pub(s%d,T%d,p%d)", plan[i].sub, plan[i].typ, plan[i].pub)
+		}
 	}
 	r.Sample(map[string]any{"subscribers": nSubs, "publishers": nPubs, "ops": pdesc})
 	// operations are issued by nDrivers concurrent outside goroutines; subscriber-side operations run inside the
@@ -254,6 +272,19 @@ func c19PubSub(r *R) {
 				case 5:
 					w.Tell(subRef(p.sub), w.NewCmd("drv", i, func(ctx vivid.ActorContext, pr *Probe) { panic("scripted failure -> restart") }))
 					r.Count("subscriber-restarted")
+				case 6:
+					// "subscribe to the event stream before the actor starts" is what OnPrelaunch is documented for. The spawn is
+					// refused because the name is taken: the actor never existed, so nothing it did may stay behind - above all
+					// not a subscription under the path of the actor that holds the name, which never asked for those events
+					pending.Add(1)
+					w.Tell(w.RefBy("create", nil, "/subs"), w.NewCmd("drv", i, func(ctx vivid.ActorContext, pr *Probe) {
+						defer pending.Done()
+						_, err := ctx.ActorOf(&c19Prelauncher{typ: p.typ}, vivid.WithActorName(fmt.Sprintf("s%d", p.sub)))
+						if err == nil {
+							r.Fail("C19/harness", "a second actor named s%d was accepted", p.sub)
+						}
+						r.Count("refused-spawn-that-subscribed-in-OnPrelaunch")
+					}))
 				}
 			}
 		})
